@@ -43,6 +43,7 @@ def run(ctx: Ctx):
     ctx.attempt(file_order, ctx)
     ctx.attempt(adds_once, ctx)
     ctx.attempt(rows_reach_fold, ctx)
+    ctx.attempt(price_entries_applied, ctx)
     ctx.attempt(prices, ctx)
     ctx.attempt(key_provenance, ctx)
     ctx.attempt(h3_guard, ctx)
@@ -217,7 +218,7 @@ def file_order(ctx: Ctx):
         fn = repo.func(file, qn)
         for p in flow.paths(fn.node):
             for e in p.events:
-                if e.name == "from_iterator" and e.call.args:
+                if e.name in ("from_iterator", "cls", "DictReaderStepper") and e.call.args:  # `cls(...)`: a new constructor classmethod, spliced in
                     data = e.call.args[0]
                     if "DictReader" not in flow.dump(data):
                         continue
@@ -234,6 +235,37 @@ def file_order(ctx: Ctx):
                               construct=f"{qn}:reordered")
                     break
     ctx.require(n >= 2, "file-order rule: DictReader -> from_iterator hand-off not found")
+
+
+def price_entries_applied(ctx: Ctx):
+    """'Each charging-price entry takes effect in the first step that begins after its timestamp': what the step's rows were folded into
+    (`reduce(_add_row_to_this_update, <rows read>, <empty>)`) is, whole, what is resolved to stations and applied. A path that has read
+    rows ends without applying them only when that fold is empty; nothing stands between the fold and `_map_to_station_ids`."""
+    fn = ctx.repo.func(CPU, "ChargingPriceUpdate.update")
+    n = 0
+    for p in flow.paths(fn.node):
+        if p.kind != "return":
+            continue
+        folds = [e for e in p.events if e.name == "reduce" and e.call.args and flow.dump(e.call.args[0]).endswith("_add_row_to_this_update")]
+        if not folds:
+            continue
+        R = flow.dump(folds[0].call)
+        maps = [e for e in p.events if e.name == "_map_to_station_ids"]
+        applies = [e for e in p.events if e.name == "reduce" and e.call.args and "_update_station_prices" in flow.dump(e.call.args[0])]
+        n += 1
+        if maps:
+            a = maps[0].call.args[0] if maps[0].call.args else None
+            ok = a is not None and flow.dump(a) == R
+            ctx.check(ok, "D4", "PATH.entries-applied", "ChargingPriceUpdate.update: the whole of this step's price entries is resolved to stations", fn, maps[0].raw,
+                      why_bad=f"`_map_to_station_ids` is given `{flow.dump(a)[:160] if a is not None else '?'}`, not the fold of the rows read in this step: an entry left out here "
+                              f"never takes effect (its row is consumed)", construct="ChargingPriceUpdate.update:partial-update")
+        if not applies:
+            empty = any(pol is True and flow.dump(a_) in (f"len({R}) == 0", f"not {R}") for a_, pol in p.facts()) or \
+                any(pol is False and flow.dump(a_) in (R, f"len({R})", f"len({R}) > 0", f"len({R}) != 0") for a_, pol in p.facts())
+            ctx.check(empty, "D4", "PATH.entries-applied", "ChargingPriceUpdate.update: a step that read price rows ends without applying any only when they folded to nothing", fn, p.end,
+                      why_bad=f"path [{p.cond_text()[:240]}] returns without a fold over `_update_station_prices` although the step's entries are not known to be empty: "
+                              f"the rows are consumed and their prices never take effect", construct="ChargingPriceUpdate.update:entries-dropped")
+    ctx.require(n >= 3, f"ChargingPriceUpdate.update: only {n} paths fold the rows read (expected the empty, the default-table and the per-station path)")
 
 
 def adds_once(ctx: Ctx):
